@@ -137,6 +137,9 @@ def gen_ops(rng, prop, knobs, profile):
                (rng.choice([1, 5]), "FOREIGN"), (rng.choice([1, 5]), "USER_READ"), (rng.choice([0, 3]), "EDIT_CONFIG")]
     if c19:
         weights += [(rng.choice([2, 6]), "RES_UPDATE"), (rng.choice([0, 2]), "RES_DELETE"), (rng.choice([1, 4]), "VALIDATOR")]
+    else:
+        # the remote object changes (possibly in length) while it is or is not cached
+        weights += [(rng.choice([0, 0, 3]), "RES_UPDATE")]
     ops = []
     dts = [0, 1000, 10**6, 10**9, 3600 * 10**9]
     big = knobs.get("big_requests")
@@ -186,6 +189,8 @@ def gen_ops(rng, prop, knobs, profile):
             op["size"] = max(1, int(knobs["max_bytes"] * rng.choice([0.3, 0.5, 0.8, 1.5])))
         elif kind in ("RES_UPDATE", "RES_DELETE"):
             op["res"] = rng.choice(sorted(knobs["res_sizes"]))
+            if kind == "RES_UPDATE" and rng.random() < 0.6:
+                op["size"] = rng.choice([50, 150, 350, 777, 1500, 4097])
         elif kind == "VALIDATOR":
             op["mode"] = rng.choice(["accept", "current"])
         ops.append(op)
